@@ -652,7 +652,18 @@ def same_value(got, exp, tol=None):
     if isinstance(exp, (list, tuple)):
         return isinstance(got, (list, tuple)) and len(got) == len(exp) and all(same_value(g, x, tol) for g, x in zip(got, exp))
     if isinstance(exp, (int, float)):
-        return isinstance(got, (int, float)) and got == exp
+        if not isinstance(got, (int, float)):
+            return False
+        if got == exp:
+            return True
+        # two floating-point evaluations of one expression may differ in the last bits (CPython sums an all-float sequence with compensation
+        # and a mixed one without; a JS engine may fuse operations): 1e-12 relative is far below anything a defect would produce
+        if isinstance(exp, float) or isinstance(got, float):
+            try:
+                return abs(got - exp) <= 1e-12 * max(abs(got), abs(exp))
+            except OverflowError:
+                return False
+        return False
     return got == exp
 
 
